@@ -52,7 +52,7 @@ def main():
                 continue
             demo = demos[0]
             headtxt = "".join(open(demo, errors="replace").readlines()[:10]) if os.path.isfile(demo) else ""
-            mdir = re.search(r"(?<![\w/])((?:[a-z0-9_]+/)+)(?=[\s(]|\s|$)", headtxt)
+            mdir = re.search(r"(?<![\w/])((?:[a-z0-9_]+/)+)(?=[\s(]|\s|$)", headtxt) or re.search(r"\./((?:[a-z0-9_]+/)+)\s*$", headtxt, re.M)
             mrun = re.search(r"-run\s+'?([A-Za-z0-9_|$^]+)'?", headtxt)
             if not mdir or not mrun or os.path.isdir(demo):
                 res["status"] = "cannot parse demo header"
